@@ -191,8 +191,79 @@ class OptionWiring(FragmentTask):
         ctx.oblige("post.field-count-is-the-readers", veq(ctx, out.value["N_FIELDS"], 2), "P")
 
 
+def expand3_contract_any(ex, args, kw):
+    """expand_array3d by its contract (proved for the kernel in C10's U tasks): out[x,y,z] = arr[x//f, y//f, z//f], concrete f"""
+    arr, fac = args
+    from pyvc.ops import as_ndarray
+    f = as_const(to_z3(fac)) if is_z3(fac) else fac
+    if not isinstance(f, int) or f < 1:
+        raise Unsupported("expand_array3d: symbolic factor")
+    a = as_ndarray(arr)
+    e, _ = a.snapshot()
+    return NDArray([simp(to_z3(n) * f) for n in a.shape], lambda ix: e(tuple(to_z3(i) / f for i in ix)), a.dtype)
+
+
+class WhipGrid(FragmentTask):
+    """main from the allocation of the grid to the end of the level loop, two levels (real code; the reading worker by its
+    interface: the FABs of its file, each with its own index range; expand_array3d by its contract): a coarse box covering the
+    whole domain and a fine box somewhere inside, any sizes.  Whatever order the files of a level complete in, afterwards every
+    cell of the uniform grid holds the fine value where the fine box covers it and the replicated coarse value elsewhere -
+    finer data is painted after (over) coarser data."""
+    prop = "C10"
+    reach = "S"
+    qual = WH + "main"
+    first = staticmethod(_src("data = np.zeros("))
+    # ... to the last loop / pool statement of that block (everything that fills the grid; what follows only saves it)
+    last = staticmethod(lambda s: isinstance(s, (ast.For, ast.With, ast.While)))
+
+    def __init__(self):
+        self.name = "whip.main.grid-of-two-levels"
+
+    def setup(self, ex):
+        ctx = ex.ctx
+        from pyvc.exec import LIBS
+        from pyvc.task import require_return_arity
+        require_return_arity(ex, [WH + "readfieldfrombinfile"], 2)
+        n = [z3.Int(f"n{d}") for d in range(3)]
+        lo1 = [z3.Int(f"flo{d}") for d in range(3)]
+        hi1 = [z3.Int(f"fhi{d}") for d in range(3)]
+        for d in range(3):
+            ctx.assume(z3.And(n[d] >= 1, lo1[d] >= 0, hi1[d] >= lo1[d], hi1[d] < 2 * n[d]))
+        A0, A1 = z3.Function("COARSE", I, I, I, R), z3.Function("FINE", I, I, I, R)
+        files = [["p/Level_0/Cell_D_00000"], ["p/Level_1/Cell_D_00000"]]
+        boxes = {files[0][0]: ([0, 0, 0], [n[d] - 1 for d in range(3)], A0), files[1][0]: (lo1, hi1, A1)}
+
+        def worker(ex_, args, kw):
+            a = args[0]
+            lo, hi, fn = boxes[str(a.get("fname"))]
+            arr = NDArray([simp(to_z3(hi[d]) - to_z3(lo[d]) + 1) for d in range(3)], lambda ix, fn=fn: fn(*[to_z3(i) for i in ix]), "f8")
+            return ([[Vec(list(lo), "array"), Vec(list(hi), "array")]], [arr])
+        self.contracts = {WH + "readfieldfrombinfile": worker, "amr_kitchen.utils.expand_array3d": expand3_contract_any}
+        LIBS[("os.path", "getsize")] = lambda ex_, a, k: (a[0], z3.Int("some_size"))[1]
+        pck = Record("amr_kitchen.plotfile_cooker.PlotfileCooker", cells=[{"files": files[0]}, {"files": files[1]}], limit_level=1,
+                     grid_sizes=[Vec(list(n), "array"), Vec([2 * x for x in n], "array")])
+        args = Record("Namespace", dtype="float64")
+        frame = {"pck": pck, "args": args, "N_FIELDS": z3.Int("N_FIELDS"), "FIELD_INDEX": z3.Int("FIELD_INDEX")}
+        return {"frame": frame, "n": n, "lo1": lo1, "hi1": hi1, "A0": A0, "A1": A1}
+
+    def post(self, ex, inp, out):
+        ctx = ex.ctx
+        ctx.oblige("raises-nothing", out.kind == "ret", "P", note=str(out.exc) if out.kind != "ret" else "")
+        if out.kind != "ret":
+            return
+        from pyvc.ops import as_ndarray
+        data = as_ndarray(out.value["data"])
+        n, lo1, hi1 = inp["n"], inp["lo1"], inp["hi1"]
+        c = [ctx.fresh(f"c{d}") for d in range(3)]
+        ctx.add_pc(z3.And(*[z3.And(c[d] >= 0, c[d] < 2 * n[d]) for d in range(3)]))
+        ctx.oblige("post.grid-has-the-size-of-the-finest-selected-level", zand(*[to_z3(data.shape[d]) == 2 * n[d] for d in range(3)]) if len(data.shape) == 3 else False, "P")
+        fine = z3.And(*[z3.And(c[d] >= lo1[d], c[d] <= hi1[d]) for d in range(3)])
+        want = z3.If(fine, inp["A1"](*[c[d] - lo1[d] for d in range(3)]), inp["A0"](*[c[d] / 2 for d in range(3)]))
+        ctx.oblige("post.every-cell-holds-the-finest-data-covering-it-coarser-cells-replicated", to_z3(data.elem(tuple(c))) == want, "P")
+
+
 def parent_tasks(tier):
-    return [PaintBox(f) for f in ((1, 2) if tier == "quick" else (1, 2, 4, 8))] + [ReadInputs(), OptionWiring(True), OptionWiring(False)]
+    return [PaintBox(f) for f in ((1, 2) if tier == "quick" else (1, 2, 4, 8))] + [ReadInputs(), OptionWiring(True), OptionWiring(False), WhipGrid()]
 
 
 def parent_canaries():
@@ -205,7 +276,10 @@ def parent_canaries():
              ["whip.main.every-file-read-once"]),
             ("whip: a level limit of 0 is taken for 'no limit'",
              [(f, "pck = PlotfileCooker(args.plotfile, limit_level=args.limit_level)", "pck = PlotfileCooker(args.plotfile, limit_level=args.limit_level or None)")],
-             ["whip.main.option-wiring[limit given]"])]
+             ["whip.main.option-wiring[limit given]"]),
+            ("whip: levels painted from the finest to the coarsest",
+             [(f, "        for lv in range(pck.limit_level + 1):", "        for lv in range(pck.limit_level, -1, -1):")],
+             ["whip.main.grid-of-two-levels"])]
 
 
 def tasks(tier):
